@@ -8,6 +8,7 @@ import (
 
 	"github.com/wokdav/gopki/generator"
 	"github.com/wokdav/gopki/generator/cert"
+	"github.com/wokdav/gopki/generator/config"
 )
 
 func vDer(v any) []byte {
@@ -17,10 +18,22 @@ func vDer(v any) []byte {
 }
 
 // vGenerateWithKey is vGenerate with a given private key (self-issued).
+// vViaProfile: the configuration passes through config.Merge with a profile
+// that adds nothing (drawn per path by vhManipulations).
+var vViaProfile bool
+
 func vGenerateWithKey(c CertConfig, key crypto.PrivateKey) (*cert.Certificate, error) {
 	content, err := initCertificate(c)
 	if err != nil {
 		return nil, err
+	}
+	if vViaProfile {
+		// what the database does for a certificate that names a profile
+		// (db.validateAndMerge): the effective configuration is Merge's result
+		content, err = config.Merge(config.CertificateProfile{Name: "p"}, *content)
+		if err != nil {
+			return nil, err
+		}
 	}
 	ctx, err := generator.BuildCertBody(*content, key, nil)
 	if err != nil {
@@ -45,6 +58,7 @@ func vVerifiesEcSha256(crt *cert.Certificate, key *ecdsa.PrivateKey) bool {
 // over the manipulated TBS bytes with the real key.
 func vhManipulations() {
 	vClockFixed(1709640000)
+	vViaProfile = vChoose("viaProfile", 2) == 1
 	kctx := cert.NewCertificateContext(nil, nil, vFixedFrom(), vFixedFrom())
 	useRsa := vChoose("keyType", 2) == 1
 	keyAlg, keyAlgName := cert.P256, "P-256"
